@@ -315,7 +315,7 @@ func faName(fa *ssa.FieldAddr) string { _, _, n := ownerFieldBase(fa); return n 
 //go:embed head_params.txt
 var headParamsTxt string
 
-type headParam struct{ name, typ string }
+type headParam struct{ name, typ, sig string }
 
 // vparam: where a reference parameter lives now - the current parameter cur as a whole (field < 0) or field `field`
 // of the current parameter cur, a struct value that bundles several reference parameters (a "parameter object").
@@ -335,7 +335,7 @@ func dumpHeadParams(P *Program) {
 			continue
 		}
 		for i, p := range f.Params {
-			lines = append(lines, fmt.Sprintf("%s\t%d\t%s\t%s", FuncKey(f), i, p.Name(), typeStr(p.Type())))
+			lines = append(lines, fmt.Sprintf("%s\t%d\t%s\t%s\t%s", FuncKey(f), i, p.Name(), typeStr(p.Type()), paramUseSig(p)))
 		}
 	}
 	sort.Strings(lines)
@@ -344,12 +344,45 @@ func dumpHeadParams(P *Program) {
 	}
 }
 
+// paramUseSig: how a parameter is used directly - the fields it is stored in and the functions it is handed to
+// (through integer conversions), sorted. Tells same-typed parameters apart when their names changed too.
+func paramUseSig(p *ssa.Parameter) string {
+	uses := map[string]bool{}
+	var walk func(v ssa.Value, depth int)
+	walk = func(v ssa.Value, depth int) {
+		for _, r := range referrersOf(v) {
+			switch u := r.(type) {
+			case *ssa.Convert:
+				if depth < 2 {
+					walk(u, depth+1)
+				}
+			case *ssa.ChangeType:
+				if depth < 2 {
+					walk(u, depth+1)
+				}
+			case *ssa.Store:
+				if u.Val == v {
+					if fa, ok := u.Addr.(*ssa.FieldAddr); ok {
+						uses["field:"+fieldName(fa.X.Type(), fa.Field)] = true
+					}
+				}
+			case ssa.CallInstruction:
+				if g := u.Common().StaticCallee(); g != nil {
+					uses["call:"+g.Name()] = true
+				}
+			}
+		}
+	}
+	walk(p, 0)
+	return strings.Join(sortedKeys(uses), ",")
+}
+
 func computeParamPerms(P *Program) {
 	paramPerm = map[*ssa.Function][]vparam{}
 	head := map[string][]headParam{}
 	for _, ln := range strings.Split(headParamsTxt, "\n") {
 		p := strings.Split(ln, "\t")
-		if len(p) != 4 || strings.HasPrefix(ln, "#") {
+		if (len(p) != 4 && len(p) != 5) || strings.HasPrefix(ln, "#") {
 			continue
 		}
 		var idx int
@@ -357,7 +390,10 @@ func computeParamPerms(P *Program) {
 		for len(head[p[0]]) <= idx {
 			head[p[0]] = append(head[p[0]], headParam{})
 		}
-		head[p[0]][idx] = headParam{p[2], p[3]}
+		head[p[0]][idx] = headParam{name: p[2], typ: p[3]}
+		if len(p) == 5 {
+			head[p[0]][idx].sig = p[4]
+		}
 	}
 	knownStruct := map[string]bool{}
 	for _, ln := range strings.Split(headFieldsTxt, "\n") {
@@ -396,8 +432,16 @@ func computeParamPerms(P *Program) {
 			continue
 		}
 		same := true
+		nTyp := map[string]int{}
+		for _, sl := range slots {
+			nTyp[sl.typ]++
+		}
 		for i, sl := range slots {
 			if sl.typ != h[i].typ || sl.v.field >= 0 || sl.v.cur != i {
+				same = false
+			}
+			// (same-typed parameters that were renamed may have changed places: decided by name and use below)
+			if nTyp[sl.typ] > 1 && sl.name != h[i].name && h[i].sig != "" {
 				same = false
 			}
 		}
@@ -421,6 +465,20 @@ func computeParamPerms(P *Program) {
 				for _, j := range cands {
 					if slots[j].name == h[i].name {
 						pick = j
+					}
+				}
+				// renamed as well: the parameter that is used the way the reference parameter is (filed in the same fields,
+				// handed to the same functions), when exactly one candidate is
+				if pick < 0 && h[i].sig != "" {
+					n := 0
+					for _, j := range cands {
+						if slots[j].v.field < 0 && paramUseSig(f.Params[slots[j].v.cur]) == h[i].sig {
+							pick = j
+							n++
+						}
+					}
+					if n != 1 {
+						pick = -1
 					}
 				}
 			}
